@@ -601,6 +601,7 @@ func (x *Exec) ensureSpecDeclared(env *SpecEnv, sf *SpecFunc) {
 	}
 	x.specUsed[sf.Name] = true
 	var params []string
+	var sorts []string
 	vars := map[string]SVal{}
 	for _, p := range sf.Params {
 		PT := x.resolveType(env, p.T)
@@ -609,6 +610,7 @@ func (x *Exec) ensureSpecDeclared(env *SpecEnv, sf *SpecFunc) {
 		for _, l := range ls {
 			n := "p." + sanitize(p.Name) + sanitize(l.Name)
 			params = append(params, fmt.Sprintf("(%s %s)", n, l.Sort))
+			sorts = append(sorts, string(l.Sort))
 			ts = append(ts, Term{n, l.Sort})
 		}
 		vars[p.Name] = SVal{x.unflattenS(PT, ts), PT}
@@ -616,11 +618,6 @@ func (x *Exec) ensureSpecDeclared(env *SpecEnv, sf *SpecFunc) {
 	RT := x.resolveType(env, sf.Result)
 	rs := leavesOfS(RT)[0].Sort
 	if sf.Body == nil {
-		var sorts []string
-		for _, p := range params {
-			f := strings.Fields(strings.Trim(p, "()"))
-			sorts = append(sorts, strings.Join(f[1:], " "))
-		}
 		x.decls = append(x.decls, fmt.Sprintf("(declare-fun %s (%s) %s)", specSym(sf), strings.Join(sorts, " "), rs))
 		return
 	}
